@@ -160,7 +160,13 @@ QString SentryFormatter::format(const LogMessage &lmsg)
     QJsonArray fingerprint;
     fingerprint.append(qtMsgTypeToSentryLevel(lmsg.type()));
     fingerprint.append(category.isEmpty() ? QStringLiteral("default") : category);
-    fingerprint.append(lmsg.message().left(100)); // First 100 chars of message
+    auto messagePrefix = lmsg.message().left(100); // First 100 chars of message
+    if (messagePrefix.size() < lmsg.message().size()
+        && messagePrefix.at(messagePrefix.size() - 1).isHighSurrogate()) {
+        // Do not cut a surrogate pair in half: a lone surrogate is not representable in JSON
+        messagePrefix.chop(1);
+    }
+    fingerprint.append(messagePrefix);
     event[QStringLiteral("fingerprint")] = fingerprint;
 
     return QString::fromUtf8(QJsonDocument(event).toJson(QJsonDocument::Compact));
